@@ -67,6 +67,16 @@ Definition api_generate_state_init (pk : bits) (v : version) (net : option Z) (w
   | _ => Ok (ocell (zeros 5) [])
   end.
 
+(** *** mnemonic -> key (wallet/seed.go SeedToPrivateKey).  The two PBKDF2 results
+    (version byte, 32-byte Ed25519 seed) are oracles; what the library decides
+    itself: at least 12 space-separated words (strings.Split) and version byte 0 *)
+Definition count_words (s : bytes) : nat := S (length (filter (N.eqb 32) s)).
+Definition seed_accepted (s : bytes) (version_byte : N) : bool :=
+  (12 <=? count_words s)%nat && N.eqb version_byte 0.
+(* DefaultWalletFromSeed: the v4r2 wallet of the derived key, default options *)
+Definition api_from_seed (s : bytes) (version_byte : N) (derived_pk : bits) : res (Z * bytes) :=
+  if seed_accepted s version_byte then api_new derived_pk V4R2 (mkopt None None None) else Err EWallet.
+
 (** *** account state and NextMessageParams *)
 Inductive acct := ANone | AUninit | AFrozen | AActive (data : cell).
 
